@@ -15,13 +15,15 @@ CLAIMS = {
          "peek_stuck_eof (after `fuel` looks without an advance every further look answers eof, reported once: stuck_reported_once), loop_terminates "
          "(a `while !at(k) && !eof` loop whose body advances or spends fuel leaves within (fuel+1)(n+1) iterations), dispatch_progress (an if/else-if chain "
          "of guards with an advancing default makes progress whatever its branches do), file_consumes_all (the top-level loop of file() terminates with "
-         "every token consumed, for any item parsers built from the primitives), expect_keeps_recovery_token, error_range_is_token_range. The model is "
+         "every token consumed, for any item parsers built from the primitives), expect_keeps_recovery_token, error_range_is_token_range, "
+         "eof_unmoved_by_looks (Parser::eof answers the same after any number of looks) with eofViaPeek_out_of_fuel / eofViaPeek_with_fuel for the "
+         "fuel-aware reading, and the CursorCovered invariant (the cursor never runs ahead of the Advance events) for every primitive, dispatch chain and loop. The model is "
          "diffed against the real Parser object on random op sequences. Termination/validation of package graphs and artefacts is C16/C15 "
          "(Props/C15.lean validate_iff, corrupt_core_rejected, other_version_*_rejected). SEARCHED, not proved: every entry point (parse, compile incl. the "
          "CLI's error formatting and all stage pretty-printers, check_package, build_package, read_core, link_cores) on random texts, byte/token/"
          "same-class-token mutations of the corpus and of generated programs, type-directed generated programs (well-typed and with one ill-typed hole), the infinite-type family `occurs` (every way two inference variables are unified first x every way to tie the knot), "
          "the call-arity catalogue (harness/src/arity.rs: every callee kind — each function, inherent method and trait method of the REAL initial environment read at run time, user/generic functions, constructors, closures, inherent/trait/dyn methods, extern functions, non-callees, and a builtin's name re-bound by a user fn / extern / local — x every argument count 0..declared+2 x three argument fillings x 16 call contexts, each text through parse, compile, check_package, build_package, link_cores and the three editor queries), "
-         "22 nesting forms to depth 200, package directory layouts (missing/misnamed/cyclic/self-importing/invalid-UTF-8/multi-file), altered artefacts "
+         "22 nesting forms to depth 200, the fuel-limit catalogue of C12 (lookahead-only scans, frames that look while they unwind, consuming loops, followers of an out-of-fuel construct, sized from the fuel measured on the real parser; the texts that end at the parser), package directory layouts (missing/misnamed/cyclic/self-importing/invalid-UTF-8/multi-file), altered artefacts "
          "(random bytes/JSON, truncation, every kind of single-value change) — each case in a child process (8 MiB main-thread stack) under catch_unwind "
          "with a CPU-time watchdog; oracle: Ok or Err with at least one error diagnostic, every diagnostic range inside the text on char boundaries, no panic, "
          "no abort, no hang. One signature per panic site (file + function) x entry point x stream class.",
@@ -396,11 +398,19 @@ CLAIMS = {
          "lexer::lex on every input and (b) buildTree fed the REAL event list and tokens must equal the real green tree and diagnostic ranges; "
          "every real event list is checked to satisfy the theorem's hypotheses. Direct oracles on the implementation for every input: tiling, "
          "char boundaries, tree text == input, leaves == tokens with same-named kinds, node/diagnostic/lowering-diagnostic ranges in the text, "
-         "line:column rendering exact, parse twice identical, no panic, no hang, deep nesting in child processes.",
-    design_ref="§5 C12, §C12 — as built",
+         "line:column rendering exact, parse twice identical, no panic, no hang, deep nesting in child processes. "
+         "Grammar side of the Advance hypothesis, on the model of the parser's fuel machine (Model/ParserFuel.lean, fuel constant regenerated): "
+         "the top-level loop of file() started in ANY well-formed state — e.g. out of fuel after a lookahead-only scan of any length — ends at "
+         "the real end of input with at least one Advance per token, for arbitrary item parsers built from the primitives "
+         "(file_advances_cover_tokens, file_after_lookahead); with a fuel-aware eof() the same hypotheses do not suffice "
+         "(fuel_aware_eof_drops_tokens). A deterministic fuel-limit catalogue sized from the fuel measured on the real parser (lookahead-only "
+         "scans, stacked frames that look while unwinding, consuming loops, followers of an out-of-fuel construct; size windows around F/4, F/3, "
+         "F/2, F) runs under all direct oracles; the list of functions that look ahead by a computed distance is regenerated from the source "
+         "and must be covered by the catalogue.",
+    design_ref="§5 C12, §C12 — as built, §Seeded C12-eof-fuel-impl-path-lookahead",
     note="Only validated, not proved: that logos' generated automaton is 'longest match, then priority' (L1 tie on exhaustive strings <=3 over 34 symbols, "
          "<=4..8 over smaller alphabets, a special-character alphabet (U+FEFF, Cf/Zs/Zl, NUL, NEL, CR, FF) and 27 special prefixes/suffixes/infixes on short texts and corpus files, corpus, mutants, random); that file::file's event list is balanced with enough Advances (checked on every real "
-         "event list, owned by C04); determinism (parse twice). Trusted: Lean kernel, extract.py's regex-subset parser, harness serialisation, "
+         "event list, owned by C04; the item parsers of file.rs are not modelled one by one — StepOK/KeepsCovered are proved for the primitives, dispatch chains and loops); that Parser::eof is the fuel-independent Input::eof (asserted textually by the translator, observed by C04's fuel-ops tie); determinism (parse twice). Trusted: Lean kernel, extract.py's regex-subset parser, harness serialisation, "
          "rowan/logos as observed. Known finding: stack overflow (abort, no tree) at ~10^5 nested '(' or '!'.",
     technique="Lean 4 proof (induction over token loop / event list, Brzozowski-derivative correctness, UTF-8 arithmetic) + table translator + "
               "differential correspondence with lexer::lex and Parser::build_tree + exhaustive small-string search"),
